@@ -7,7 +7,7 @@ from ..arity import Arity, length
 from ..model import AnalysisError
 from .common import ob, need, call_name, resolve_ite_free, linear_form, linear_sum, is_lit
 from .. import symeval
-from . import c15
+from . import c15, common
 
 PROP = "C19"
 EXPLANATION = (
@@ -418,7 +418,14 @@ def rule_safedb(ctx):
             yield o
 
 
+def rule_extnames(ctx):
+    """the projection helpers fall back to a least-squares solve when the Gram matrix is singular (a hard-panned or
+    duplicated reference): the exception class named in that handler must exist in the installed NumPy"""
+    yield from common.rule_extnames(ctx, "C19.EXTNAMES", ("separation.py", "util.py"))
+
+
 RULES = [
+    ("C19.EXTNAMES", 20, rule_extnames),
     ("C19.SAFEDB", 2, rule_safedb),
     ("C19.LINEAR", 9, rule_linear),
     ("C19.ARITY", 14, rule_arity),
